@@ -18,6 +18,9 @@ checks = {
  "C16": dict(level=EXPL, ref="§C16", tech="bounded-exhaustive enumeration of byte/token words, corpus single-token mutants, nesting words and config-file matrices; subprocess workers with journal",
    text="all byte words<=3 over 38 byte classes x 7 loaders, token words, every test-suite input literal under every loader plus its single-token deletions/duplications/swaps, nesting words w^n, source-map payload grammar, package.json/tsconfig.json key x value-kind matrix through real bundles: the call returns, no panic/internal-error text, worker processes survive, canary build succeeds",
    note="inputs above tens of kilobytes / nesting above 20000 not explored; hang = no answer within 120 s"),
+ "C06": dict(level=EXPL, ref="§C06", tech="bounded-exhaustive enumeration of type positions x type forms (byte equality of typed vs untyped twin), js-vs-ts loader equality over the JS space, enum constant-expression grammar executed against reference emit",
+   text="80 type positions x (113 type forms + hole-forms nested once) x {ts,tsx,mts}: Transform(typed)==Transform(untyped twin), also minified; the C01 expression/statement space and 43 contextual keywords x 27 follower contexts compile identically under js/ts and jsx/tsx; all enum initialisers of depth<=2 over the constant-expression grammar (regular, const, cross-module inlined) plus namespace/parameter-property/class-field-semantics cases executed in V8 against TypeScript's reference emit",
+   note="typed programs are valid TypeScript by construction (no independent TS parser available offline); experimentalDecorators not covered; `a<b>(c)` token runs and unused imports excluded as documented"),
  "C13": dict(level=EXPL, ref="§C13", tech="bounded-exhaustive enumeration of token words (small-scope model checking of the lexer/parser/printer state machine) with V8 as reference grammar",
    text="all token words up to length 3 (thorough 4) over a 100+ token context-sensitive alphabet; each word is run through the real esbuild and decided against V8 (accept/reject agreement, output validity per goal under 5 configurations, fixed point T(T(x))==T(x))",
    note="V8 of Node 20 is the reference grammar; inputs V8 rejects are outside the quantifier"),
